@@ -5,7 +5,7 @@ CONSTANTS
   Dense = TRUE
   KeepStatus = TRUE
   RecheckAtApply = TRUE
-  RecheckISR = FALSE
+  RecheckISR = TRUE
   CountAll = TRUE
   InitISRs = {{"r1"}, {"r1", "r2"}, {"r1", "r2", "r3"}, {"r1", "r2", "r3", "r4"}}
   L0 = "r1"
